@@ -169,6 +169,26 @@ Proof.
   unfold deliver in He. inversion He; subst. exists m. repeat split; auto.
 Qed.
 
+(* T4: what a context already carries is irrelevant; a relayed send restores what was injected at ITS send *)
+Lemma enrich_ignores_attached a h : enrich a h = first_values h.
+Proof. reflexivity. Qed.
+
+Lemma relay_second_hop ord req inbound id h2 :
+  relay_hop ord req inbound id h2 = deliver ord req (send id h2).
+Proof. reflexivity. Qed.
+
+Lemma relay_full ord req inbound id (h2 : hdr) :
+  NoDup (map fst h2) ->
+  (forall p, In p h2 -> (exists v, snd p = [v]) /\ canon (fst p) = fst p) ->
+  Permutation (ord (send id h2)) (first_values h2) -> first_values h2 <> [] ->
+  exists got, relay_hop ord req inbound id h2 = (id, (req ++ [got])%list) /\
+              forall K v, lookup K got = Some v <-> In (K, [v]) h2.
+Proof.
+  intros Hnd Hok Hp Hne. exists (restore (ord (send id h2))). split.
+  - unfold relay_hop, deliver, enrich, send. simpl. destruct (first_values h2) eqn:E; [congruence | reflexivity].
+  - apply restore_full; assumption.
+Qed.
+
 (* ------------------------------------------------------------------ the limits of the wire format *)
 Open Scope string_scope.
 
